@@ -1,1 +1,130 @@
 // Kani contract harnesses for /repo/arrow-row/src/lib.rs (child module: sees private items via super::)
+use super::*;
+#[path = "/verif/kani/support/spec.rs"]
+mod spec;
+use spec::*;
+
+fn lex_s(a: &[u8], b: &[u8]) -> Ordering {
+    let n = if a.len() < b.len() { a.len() } else { b.len() };
+    let mut i = 0;
+    while i < n {
+        if a[i] != b[i] { return if a[i] < b[i] { Ordering::Less } else { Ordering::Greater }; }
+        i += 1;
+    }
+    if a.len() < b.len() { Ordering::Less } else if a.len() > b.len() { Ordering::Greater } else { Ordering::Equal }
+}
+fn empty_config() -> RowConfig { RowConfig { fields: Arc::from(Vec::<SortField>::new()), validate_utf8: false } }
+
+// Contract (C11): null_sentinel(options) is 0x00 when nulls sort first and 0xFF when they sort last, for both
+// directions: strictly below / above the "valid" marker 1 and every variable-length sentinel (1, 2 and their
+// complements 0xFE, 0xFD), which is what places null rows before / after all values.
+// @unit name=null_sentinel_spec props=C11 kind=complete fns=null_sentinel
+#[kani::proof]
+fn null_sentinel_spec() {
+    let o = SortOptions { descending: kani::any(), nulls_first: kani::any() };
+    let s = null_sentinel(o);
+    assert!(s == if o.nulls_first { 0 } else { 0xFF });
+    let other: u8 = kani::any();
+    kani::assume(other == 1 || other == 2 || other == 0xFE || other == 0xFD);
+    assert!((s < other) == o.nulls_first && s != other);
+    kani::cover!(o.nulls_first && o.descending);
+    kani::cover!(!o.nulls_first && !o.descending);
+}
+
+// Contract (C11): LengthTracker arithmetic in the all-fixed state (3 rows): after push_fixed(a), push_fixed(b)
+// every row has length a + b; extend_offsets(initial, offsets) appends the START offset of each row
+// (initial + i*(a+b), i.e. prefix sums "shifted down by one row" as documented) after the existing entries
+// and returns initial + total where total = sum of the row lengths; materialized() yields 3 zero variable
+// parts. a, b, initial symbolic (< 2^16 so that no overflow precondition is needed).
+// @unit name=length_tracker_fixed_3 props=C11 kind=bounded bound=3_rows fns=LengthTracker::new,LengthTracker::push_fixed,LengthTracker::extend_offsets,LengthTracker::materialized timeout=600
+#[kani::proof]
+#[kani::unwind(6)]
+fn length_tracker_fixed_3() {
+    let (a, b, initial): (u16, u16, u16) = (kani::any(), kani::any(), kani::any());
+    let (a, b, initial) = (a as usize, b as usize, initial as usize);
+    let mut t = LengthTracker::new(3);
+    t.push_fixed(a);
+    t.push_fixed(b);
+    let mut offsets = Vec::with_capacity(8);
+    offsets.push(initial);
+    let end = t.extend_offsets(initial, &mut offsets);
+    assert!(end == initial + 3 * (a + b));
+    assert!(offsets.len() == 4 && offsets[0] == initial);
+    assert!(offsets[1] == initial && offsets[2] == initial + (a + b) && offsets[3] == initial + 2 * (a + b));
+    let m = t.materialized();
+    assert!(m.len() == 3 && m[0] == 0 && m[1] == 0 && m[2] == 0);
+    // after materialisation the tracker still reports the same totals
+    let mut o2 = Vec::with_capacity(3);
+    assert!(t.extend_offsets(initial, &mut o2) == end);
+    assert!(o2.len() == 3 && o2[0] == offsets[1] && o2[1] == offsets[2] && o2[2] == offsets[3]);
+    kani::cover!(a > 0 && b > 0 && initial > 0);
+}
+
+// Contract (C11): LengthTracker with variable columns (3 rows): push_fixed(f1), push_variable(v), push_fixed(f2),
+// push_variable(w) tracks row length_i = f1 + f2 + v_i + w_i; extend_offsets appends the start offset of each
+// row = initial + sum of the lengths of the earlier rows and returns initial + sum of all row lengths.
+// @unit name=length_tracker_variable_3 props=C11 kind=bounded bound=3_rows_2_fixed_2_variable_columns fns=LengthTracker::push_fixed,LengthTracker::push_variable,LengthTracker::extend_offsets,LengthTracker::materialized tier=thorough mem=8 timeout=1500
+#[kani::proof]
+#[kani::unwind(6)]
+fn length_tracker_variable_3() {
+    let f: [u8; 2] = kani::any();
+    let v: [u8; 3] = kani::any();
+    let w: [u8; 3] = kani::any();
+    let initial: u16 = kani::any();
+    let initial = initial as usize;
+    let mut t = LengthTracker::new(3);
+    t.push_fixed(f[0] as usize);
+    t.push_variable(v.iter().map(|x| *x as usize));
+    t.push_fixed(f[1] as usize);
+    t.push_variable(w.iter().map(|x| *x as usize));
+    let len = |i: usize| f[0] as usize + f[1] as usize + v[i] as usize + w[i] as usize;
+    let mut offsets = Vec::with_capacity(8);
+    offsets.push(initial);
+    let end = t.extend_offsets(initial, &mut offsets);
+    assert!(offsets.len() == 4);
+    assert!(offsets[1] == initial && offsets[2] == initial + len(0) && offsets[3] == initial + len(0) + len(1));
+    assert!(end == initial + len(0) + len(1) + len(2));
+    let m = t.materialized();
+    assert!(m.len() == 3 && m[0] == v[0] as usize + w[0] as usize && m[2] == v[2] as usize + w[2] as usize);
+    kani::cover!(v[0] != v[1] && w[1] != w[2] && f[0] > 0);
+}
+
+// Contract (C11): Rows offset bookkeeping and Row comparison. For a Rows value with buffer of 7 symbolic bytes
+// and offsets [0, 3, 7]: num_rows() == 2; row(i).data() is exactly buffer[offsets[i]..offsets[i+1]]; row_len
+// and lengths() report 3 and 4; Row's Ord/Eq is the plain lexicographic byte order of the row data ("byte-wise
+// comparison of two encoded rows"); push(row) appends a copy as the last row; clear() leaves zero rows.
+// (config.fields is an empty Arc<[SortField]>; Rows forgotten.)
+// @unit name=rows_offsets_2 props=C11 kind=bounded bound=2_rows_of_3_and_4_bytes fns=Rows::row,Rows::checked_row_end,Rows::row_unchecked,Rows::row_len,Rows::lengths,Rows::num_rows,Rows::push,Rows::clear,Row::cmp,Row::eq timeout=900 mem=3
+#[kani::proof]
+fn rows_offsets_2() {
+    let b: [u8; 7] = kani::any();
+    let mut rows = Rows { buffer: b.to_vec(), offsets: vec![0, 3, 7], config: empty_config() };
+    assert!(rows.num_rows() == 2);
+    {
+        let (r0, r1) = (rows.row(0), rows.row(1));
+        assert!(r0.data().len() == 3 && r1.data().len() == 4);
+        let mut k = 0;
+        while k < 3 { assert!(r0.data()[k] == b[k]); k += 1; }
+        let mut k = 0;
+        while k < 4 { assert!(r1.data()[k] == b[3 + k]); k += 1; }
+        assert!(rows.row_len(0) == 3 && rows.row_len(1) == 4);
+        let mut it = rows.lengths();
+        assert!(it.next() == Some(3) && it.next() == Some(4) && it.next().is_none());
+        let want = lex_s(&b[0..3], &b[3..7]);
+        assert!(r0.cmp(&r1) == want);
+        assert!(r1.cmp(&r0) == lex_s(&b[3..7], &b[0..3]));
+        assert!(r0 != r1 && r0 == rows.row(0));
+        kani::cover!(want == Ordering::Less && b[0] == b[3] && b[1] == b[4] && b[2] == b[5]); // proper prefix
+        kani::cover!(want == Ordering::Greater);
+    }
+    let cfg = rows.config.clone();
+    let extra: [u8; 2] = kani::any();
+    rows.push(Row { data: &extra, config: &cfg });
+    assert!(rows.num_rows() == 3 && rows.row_len(2) == 2);
+    assert!(rows.row(2).data()[0] == extra[0] && rows.row(2).data()[1] == extra[1]);
+    assert!(rows.row(1).data()[3] == b[6]);
+    rows.clear();
+    assert!(rows.num_rows() == 0);
+    std::mem::forget(rows);
+    std::mem::forget(cfg);
+}
